@@ -108,7 +108,8 @@ class Module(object):
                     self.imports[local] = ('<ext>:' + (s.module or ''), a.name)
         elif isinstance(s, ast.Import):
             for a in s.names:
-                self.imports[a.asname or a.name.split('.')[0]] = ('<ext>:' + a.name, None)
+                # `import a.b` binds the name `a` (the top-level package); `import a.b as c` binds c to a.b
+                self.imports[a.asname or a.name.split('.')[0]] = ('<ext>:' + (a.name if a.asname else a.name.split('.')[0]), None)
         elif isinstance(s, ast.FunctionDef):
             self.funcs[s.name] = FuncInfo(self, s.name, s)
         elif isinstance(s, ast.ClassDef):
